@@ -1,11 +1,14 @@
 // K1 driver (C06, unit 3): the real unifex::atomic_intrusive_queue template, exercised directly.
 //   program: <active|inactive> <counts: n1,n2,...> <script: string over D I M A F>
+//     R dequeue_all_reversed (logs `!rbatch`, top of the stack first)
 //     D dequeue_all   I try_mark_inactive   M try_mark_inactive_or_dequeue_all   A try_mark_active
 //     F wait for every producer to finish, then try_mark_active + dequeue_all (final drain)
 //   thread 0: the consumer runs the script; before D/I/M it sleeps while it is marked inactive
 //             (it is woken by the producer whose enqueue() returned true, or by its own A; once
 //             every producer has finished it reactivates itself with try_mark_active).
 //   threads 1..k: producer p enqueues items p.0, p.1, ...; `!wake p.j` when enqueue returned true.
+//             A count written `2o` makes that producer use enqueue_or_mark_active instead: `!direct p.j`
+//             when it returned false (queue re-activated, item handed back to the caller).
 // The consumer logs every queue it is handed as `!batch a,b,c` (front first).
 #include <unifex/detail/atomic_intrusive_queue.hpp>
 #include "vh.hpp"
@@ -45,7 +48,9 @@ std::string batch_str(intrusive_queue<Item, &Item::next> b) {
 int main(int argc, char** argv) {
   auto cli = vh::parse_cli(argc, argv);
   const bool active = cli.prog.at(0) == "active";
-  const std::vector<int> counts = parse_counts(cli.prog.at(1));
+  const std::vector<int> counts = parse_counts(cli.prog.at(1));   // atoi ignores a trailing 'o'
+  std::vector<bool> orm;
+  { std::stringstream ss(cli.prog.at(1)); std::string t; while (std::getline(ss, t, ',')) if (!t.empty()) orm.push_back(t.back() == 'o'); }
   const std::string script = cli.prog.size() > 2 ? cli.prog[2] : "F";
   const int k = (int)counts.size();
   if (k >= MAXP) { std::printf("FATAL too many producers\n"); return 2; }
@@ -65,13 +70,20 @@ int main(int argc, char** argv) {
       for (int p = 1; p <= k; ++p) for (int j = 0; j < counts[p - 1]; ++j)
         dsched::name_value((std::uint64_t)(std::uintptr_t)&sh->items[p][j], intern("i" + std::to_string(p) + "." + std::to_string(j)));
       for (char op : script) {
-        if (op == 'D' || op == 'I' || op == 'M') {
+        if (op == 'D' || op == 'I' || op == 'M' || op == 'R') {
           // asleep: wait for a producer's wake-up; when no producer is left, reactivate ourselves
           dsched::block_until([&] { return !sh->asleep || sh->producers_done == k; });
           if (sh->asleep && q.try_mark_active()) sh->asleep = false;
         }
         switch (op) {
           case 'D': dsched::action("batch %s", batch_str(q.dequeue_all()).c_str()); break;
+          case 'R': {
+            auto st = q.dequeue_all_reversed();
+            std::string b;
+            while (!st.empty()) { Item* it = st.pop_front(); if (!b.empty()) b += ","; b += std::to_string(it->p) + "." + std::to_string(it->j); }
+            dsched::action("rbatch %s", b.c_str());
+            break;
+          }
           case 'I': if (q.try_mark_inactive()) sh->asleep = true; break;
           case 'M': {
             auto b = q.try_mark_inactive_or_dequeue_all();
@@ -90,10 +102,12 @@ int main(int argc, char** argv) {
       }
     });
     for (int p = 1; p <= k; ++p)
-      th.push_back([sh, p, n = counts[p - 1]] {
+      th.push_back([sh, p, n = counts[p - 1], o = (bool)orm[p - 1]] {
         auto& q = sh->q.get();
         for (int j = 0; j < n; ++j) {
-          if (q.enqueue(&sh->items[p][j])) { sh->asleep = false; dsched::action("wake %d.%d", p, j); }
+          if (o) {
+            if (!q.enqueue_or_mark_active(&sh->items[p][j])) { sh->asleep = false; dsched::action("direct %d.%d", p, j); }
+          } else if (q.enqueue(&sh->items[p][j])) { sh->asleep = false; dsched::action("wake %d.%d", p, j); }
         }
         sh->producers_done++;
       });
@@ -114,14 +128,19 @@ int main(int argc, char** argv) {
         auto a = rest.find("->"); auto b = rest.find(' ', a);
         std::string from = rest.substr(rest.find(' ', 8) + 1, a - rest.find(' ', 8) - 1), to = rest.substr(a + 2, b - a - 2);
         if (to == "INACTIVE") { ++marks; if (marks - wakes - actives != 1) err += "marked inactive twice without a wake-up in between; "; }
-        else if (to == "0") { if (from == "INACTIVE") ++actives; }
+        else if (to == "0") { if (from == "INACTIVE" && t == 0) ++actives; }
         else if (t >= 1) enq.push_back(to.substr(1));
-      } else if (rest.rfind("!wake ", 0) == 0) {
+      } else if (rest.rfind("!wake ", 0) == 0 || rest.rfind("!direct ", 0) == 0) {
         ++wakes;
-        if (marks - wakes - actives != 0) err += "enqueue returned true although the consumer was not inactive; ";
+        if (marks - wakes - actives != 0) err += "a producer was told the consumer was inactive although it was not; ";
+        if (rest[1] == 'd') { enq.push_back(rest.substr(8)); got.push_back(rest.substr(8)); }
       } else if (rest.rfind("!batch", 0) == 0) {
         std::stringstream ss(rest.size() > 7 ? rest.substr(7) : ""); std::string it;
         while (std::getline(ss, it, ',')) if (!it.empty()) got.push_back(it);
+      } else if (rest.rfind("!rbatch", 0) == 0) {   // a stack: newest first
+        std::stringstream ss(rest.size() > 8 ? rest.substr(8) : ""); std::string it; std::vector<std::string> tmp;
+        while (std::getline(ss, it, ',')) if (!it.empty()) tmp.push_back(it);
+        got.insert(got.end(), tmp.rbegin(), tmp.rend());
       }
     }
     for (size_t i = 0; i < got.size(); ++i)
